@@ -120,6 +120,28 @@ class GeneralEmbedding(nn.Module):
         return self.base.h(t, y)
 
 
+class Conditioned(nn.Module):
+    """`base` with a well-conditioned diffusion (matrix noise types: + 2*eye(d, m)); used where the pseudo-inverse of g
+    enters a differentiated quantity (logqp), so that finite differences of it are meaningful."""
+
+    def __init__(self, base):
+        super().__init__()
+        self.base = base
+        self.noise_type, self.sde_type, self.m, self.d = base.noise_type, base.sde_type, base.m, base.d
+
+    def f(self, t, y):
+        return self.base.f(t, y)
+
+    def g(self, t, y):
+        g = self.base.g(t, y)
+        if self.noise_type == "diagonal":
+            return g
+        return g + 2.0 * torch.eye(g.size(1), g.size(2), dtype=g.dtype)
+
+    def h(self, t, y):
+        return self.base.h(t, y)
+
+
 class Plain:
     """An SDE object that is not an nn.Module (f and g given as callables)."""
 
